@@ -52,11 +52,10 @@ def run(ctx):
     ctx.log("converter switches of the tree under test: %s" % json.dumps(sw))
     d = {"defines": sw}
     if ctx.tier == "quick":
-        jobs = [("DeclRoundTrip_fixed.cfg", {}), ("DeclRoundTrip_decl_quick.cfg", d), ("DeclRoundTrip_generic_quick.cfg", d)]
+        jobs = [("DeclRoundTrip_fixed.cfg", {}), ("DeclRoundTrip_quick.cfg", d)]
     else:
-        jobs = [("DeclRoundTrip_fixed.cfg", {}), ("DeclRoundTrip_decl_thorough.cfg", d), ("DeclRoundTrip_generic_thorough.cfg", d),
-                ("DeclRoundTrip_values_thorough.cfg", d)]
-    g.run_cfgs(ctx, "DeclRoundTrip", jobs, cases)
+        jobs = [("DeclRoundTrip_fixed.cfg", {}), ("DeclRoundTrip_thorough.cfg", d)]
+    g.run_cfgs(ctx, "DeclRoundTrip", jobs, cases, parallel=2)
     n = g.dedupe_and_check_unambiguous(ctx, cases)
     ctx.log("%d distinct declaration lists" % n)
     res = ctx.run_harness(h, ["c37"], cases, timeout_s=2400)
